@@ -84,10 +84,92 @@ def match_obligations(c, k, p):
     return out, valid, T
 
 
+def iteration_obligations(c, k, p):
+    """cube I: ONE iteration of the match loop from an arbitrary loop-head state.  Assumed at the loop head (and
+    re-established at the next one / at return): sum of the transactions so far + remaining == requested.  Everything the
+    iteration appends is checked, so the accounting rules hold for any number of iterations."""
+    from .c01 import set_aside_entries
+    h, L = c.h, c.L
+    rec = p['rec']
+    start = rec['start']
+    q, r0 = start['q'], start['remaining']
+    names = L.structs['MatchResult']
+    tn = L.structs['Transaction']
+    res0 = dict(zip(names, start['result']))
+    t0 = res0['transactions'][0]
+    f0 = res0['filled_order_ids']
+    pre = rec['pre']
+    out = []
+
+    def tsum(txs):
+        tot = S.bv(0, W)
+        for i, t in enumerate(txs.cells):
+            tot = S.Add(tot, S.Ite(S.Ult(S.bv(i, 64), txs.length), S.ZExt(dict(zip(tn, t))['quantity'], W), S.bv(0, W)))
+        return tot
+    # loop-head invariant assumed for the arbitrary start state
+    c.domain.append(S.Eq(S.Add(tsum(t0), S.ZExt(r0, W)), S.ZExt(q, W)))
+
+    def check(where, guard, result, remaining, level, locals_):
+        res = dict(zip(names, result))
+        txs, fl = res['transactions'][0], res['filled_order_ids']
+        parts = h.level_parts(level)
+        owned = parts['resting'] + set_aside_entries(locals_)
+        good = [S.Eq(S.Add(tsum(txs), S.ZExt(remaining, W)), S.ZExt(q, W)), veq(res['order_id'], rec['taker'])]
+        newtx = [(S.And(S.Ult(S.bv(i, 64), txs.length), S.Uge(S.bv(i, 64), t0.length)), dict(zip(tn, t))) for i, t in enumerate(txs.cells)]
+        for v, t in newtx:
+            was = [S.And(occ, veq(key, t['maker_order_id'])) for occ, key, o in pre]
+            side_ok = [S.And(occ, veq(key, t['maker_order_id']), S.Not(S.Eq(OrderView(L, o).side.tag, t['taker_side'].tag)))
+                       for occ, key, o in pre]
+            good.append(S.Implies(v, S.And(S.Not(S.Eq(t['quantity'], S.bv(0, 64))), S.Eq(t['price'], h.P),
+                                           veq(t['taker_order_id'], rec['taker']), S.Or(was), S.Or(side_ok))))
+        # filled ids appended by this iteration
+        newf = [(S.And(S.Ult(S.bv(i, 64), fl.length), S.Uge(S.bv(i, 64), f0.length)), x) for i, x in enumerate(fl.cells)]
+        for fv, f in newf:
+            traded = S.Or([S.And(v, veq(t['maker_order_id'], f)) for v, t in newtx])
+            still = S.Or([S.And(occ, veq(OrderView(L, o).id, f)) for occ, key, o in owned])
+            good.append(S.Implies(fv, S.And(traded, S.Not(still))))
+        for v, t in newtx:
+            still = S.Or([S.And(occ, veq(OrderView(L, o).id, t['maker_order_id'])) for occ, key, o in owned])
+            listed = S.Or([S.And(fv, veq(f, t['maker_order_id'])) for fv, f in newf])
+            good.append(S.Implies(S.And(v, S.Not(still)), listed))
+        # nothing is created: per order, what this iteration executed + what the level still owns <= what it owned
+        for occ, key, o in pre:
+            ov = OrderView(L, o)
+            before = S.Add(S.ZExt(ov.displayed, W), S.ZExt(ov.hidden, W))
+            fills = S.bv(0, W)
+            for v, t in newtx:
+                fills = S.Add(fills, S.Ite(S.And(v, veq(t['maker_order_id'], key)), S.ZExt(t['quantity'], W), S.bv(0, W)))
+            after = S.bv(0, W)
+            for occ2, key2, o2 in owned:
+                same = veq(OrderView(L, o2).id, key)
+                if same is S.FALSE:
+                    continue
+                ov2 = OrderView(L, o2)
+                after = S.Add(after, S.Ite(S.And(occ2, same), S.Add(S.ZExt(ov2.displayed, W), S.ZExt(ov2.hidden, W)), S.bv(0, W)))
+            good.append(S.Implies(occ, S.Ule(S.Add(fills, after), before)))
+        out.append({'name': 'step%d:I %s: accounting invariant and per-transaction rules for what this iteration appended' % (k, where),
+                    'kind': 'obligation', 'goal': S.And(guard, S.Not(S.And(good)))})
+    for cut in rec.get('cuts') or []:
+        check('at the next loop head', cut['guard'], cut['result'], cut['remaining'], cut['level'], cut['locals'])
+        res = dict(zip(names, cut['result']))
+        out.append({'name': 'reach: an iteration appends a transaction and a filled id and the loop goes on', 'kind': 'witness',
+                    'goal': S.And(cut['guard'], S.Ugt(res['transactions'][0].length, t0.length),
+                                  S.Ugt(res['filled_order_ids'].length, f0.length)), 'required': True})
+    if rec['ret'] is not None:
+        res = dict(zip(names, rec['ret']))
+        check('at return', p['live'], rec['ret'], res['remaining_quantity'], h.level_value(), None)
+        out.append({'name': 'step%d:I at return: is_complete <=> remaining == 0' % k, 'kind': 'obligation',
+                    'goal': S.And(p['live'], S.Not(S.Eq(res['is_complete'], S.Eq(res['remaining_quantity'], S.bv(0, 64)))))})
+    return out
+
+
 def obligations(c):
     out = []
     alltx = []
     for k, p in enumerate(c.params):
+        if p['op'] == 'I':
+            out += iteration_obligations(c, k, p)
+            continue
         if p['op'] != 'M' or p['rec']['ret'] is None:
             continue
         o, valid, T = match_obligations(c, k, p)
@@ -127,6 +209,8 @@ def cubes(tier):
         n, k, L, depth, nadds, price = 3, 4, 4, 4, 2, 3
     out.append({'seq': 'M', 'pre': {'N': n, 'K': k}, 'match_unwind': L, 'pop_unwind': k + L + 1, 'qty_mode': 'full',
                 'price': price, 'family': 'one-match-from-arbitrary-state', 'order_price_offsets': [1]})
+    out.append({'seq': 'I', 'pre': {'N': n, 'K': k}, 'cut_after': 1, 'pop_unwind': k + 2, 'qty_mode': 'full', 'price': price,
+                'family': 'one-iteration-from-arbitrary-loop-head', 'order_price_offsets': [1], 'native': False, 'assume_unwind': False})
     for s in sequences(depth, nadds):
         if 'M' not in s:
             continue
@@ -178,7 +262,7 @@ def run(tier, seed):
     his = [c for c in cs if not c.get('pre')]
     ind = [c for c in cs if c.get('pre')]
     run.bounds = {'one_match_from_arbitrary_state': {'resting_orders_N': ind[0]['pre']['N'], 'tickets_K': ind[0]['pre']['K'],
-                                                     'match_loop_unwind': ind[0]['match_unwind']} if ind else None,
+                                                     'match_loop_unwind': ind[0].get('match_unwind'), 'plus': 'one iteration from an arbitrary loop-head state (any number of iterations by induction)'} if ind else None,
                   'histories': {'depth_D': len(his[0]['seq']) if his else 0, 'cubes': len(his),
                                 'match_loop_unwind': sorted(set(c['match_unwind'] for c in his))},
                   'add_transaction_appends': 4, 'quantities': 'free 64-bit', 'level_price': cs[0]['price']}
